@@ -725,11 +725,11 @@ def check_result_buffers(run, A, module_prefixes, rule='R-DTYPE'):
             return None, None
         cands = []
         for e in g.events:
-            if e.kind == 'call' and is_call_to(e.term, *FLOAT_PRODUCING):
+            if e.kind in ('call', 'outcall') and is_call_to(e.term, *FLOAT_PRODUCING):
                 out = call_arg(e.term, None, 'out')
                 if out is not None:
                     cands.append((e.term, out, 'out='))
-            elif e.kind == 'store' and e.term.op == 'store' and is_call_to(strip_views(e.term.args[2]), *FLOAT_PRODUCING):
+            elif e.kind in ('store', 'ownstore') and e.term.op == 'store' and is_call_to(strip_views(e.term.args[2]), *FLOAT_PRODUCING):
                 cands.append((strip_views(e.term.args[2]), e.term.args[0], 'indexed store'))
         for call, buf, how in cands:
             maker, proto = like_proto(buf)
